@@ -17,7 +17,9 @@ def coq_case(c):
     toks = [coq_span(s, e) for k, s, e in c["spans"] if k == "tok"]
     errs = [coq_span(s, e) for k, s, e in c["spans"] if k == "lexerr"]
     others = [coq_span(s, e) for k, s, e in c["spans"] if k not in ("tok", "lexerr")]
-    return "TC %s [%s] [%s] [%s]" % (coq_segs(c["segs"]), ";".join(toks), ";".join(errs), ";".join(others))
+    out = "[" + ";".join("(%d,%s)" % (n, CLS[k]) for n, k in (c.get("out") or [])) + "]"
+    gout = [coq_span(s, e) for s, e in (c.get("gout") or [])]
+    return "TC %s [%s] [%s] [%s] %s [%s]" % (coq_segs(c["segs"]), ";".join(toks), ";".join(errs), ";".join(others), out, ";".join(gout))
 
 
 def vkey(cause, key, inp):
@@ -71,7 +73,8 @@ def run(r):
             coq_fail.add(si * shard + i)
     # kinds of monitor verdicts the Coq case predicate also decides
     def coq_decidable(key):
-        return not key.startswith("gmap-out/") and not key.startswith("panic/")
+        # the output side of the glyph map is decided in Coq too (push_ok: both ends = end_loc of the output prefix)
+        return not key.startswith("panic/")
     disagree = []
     nspans = 0
     kinds = {}
@@ -93,7 +96,9 @@ def run(r):
                         {"kind": key, "cause": cause, "input": small, "detail": detail, "found_in": c["src"], "cmd": "printf %%s %r | c19 probe" % small},
                         theorem="C19_loc_spec")
     r.coverage["tie"] = {"kind": "C", "cases": len(cases), "spans_checked": nspans, "by_span_kind": kinds, "by_input_category": cats,
-                         "coq_failing_cases": len(coq_fail), "monitor_vs_model_disagreements": len(disagree),
+                         "coq_failing_cases": len(coq_fail), "glyph_map_output_entries_checked_in_coq": sum(len(c.get("gout") or []) for c in cases),
+                         "output_comment_eval_cases": sum(1 for c in cases if c["cat"] == "output-comment-eval"),
+                         "multi_line_fragments": sum(1 for c in cases for s, e in (c.get("gout") or []) if e[2] > s[2]), "monitor_vs_model_disagreements": len(disagree),
                          "implementation_violations": impl_viol, "max_segments": max([len(c["segs"]) for c in cases] or [0])}
     for c in cases[:2] + cases[-2:]:
         r.sample({"input": c["src"], "segments": len(c["segs"]), "tokens": c["ntok"], "lex_errors": c["nlexerr"], "spans": len(c["spans"]), "violations": [v[0] for v in c["viol"]]})
@@ -126,5 +131,5 @@ def run(r):
     r.coverage["evaluations"] = len(cases) + s.get("evaluations", 0)
     r.coverage["distinct_nontrivial"] = len(set(c["src"] for c in cases if len(c["spans"]) >= 3))
     r.coverage["rule"] = ("inputs: random token soup over uiua's glyphs, ASCII primitive names and a fixed list of hard pieces (escapes, combining sequences, CR/CRLF, "
-                          "multi-line strings, output comments, unterminated constructs, subscripts, `?` chains), mutated lines of /repo/tests and /repo/examples, "
+                          "multi-line strings, output comments (unevaluated soup and EVALUATED `##` at line start / end of line, indent 0-3 in modules and multi-line functions, values scalar/list/rank-2/rank-3/boxed), unterminated constructs, subscripts, `?` chains), mutated lines of /repo/tests and /repo/examples, "
                           "preceded by the 18 former failing inputs of the repaired defect classes (escape + split identifier, combining mark, end-of-line-comment glyph map; also the first tie cases) and by a fixed regression corpus of 16 huge inputs around the 16-bit limits (9 that the guard must reject with the ordinary too-long error, 5 just inside the guard that must lex cleanly, 2 for the formatter output side: a 65535-character formatted line must be exact, a 65536-character one may only be clamped, never wrapped); non-trivial = at least 3 reported spans")
